@@ -322,19 +322,26 @@ def part_generated(ctx, examples, real=False):
     hyp_run(ctx, gen_case(real), check_case, examples)
 
 
-def part_big(ctx, which, kind):
-    """beyond the 20 MB trim threshold, with data after the trim point"""
+def part_big(ctx, which, kind, skip=0):
+    """beyond the 20 MB trim threshold, with data after the trim point; `skip` record-header bytes before each packet"""
     if which == "330x65536":
         pkts = [pk.mkpacket(i % 2048, pattern(i, 65536), seqcount=i) for i in range(330)]
     else:
         pkts = [pk.mkpacket(i % 2048, bytes([i & 0xFF]), seqcount=i % 16384) for i in range(3_000_000)]
-    stream = b"".join(pkts)
+    stream = b"".join(bytes([0xEE, i & 0xFF, 0x08, 0x00, 0xFF][:skip]) + p for i, p in enumerate(pkts)) if skip \
+        else b"".join(pkts)
     starts = []
-    ctx.domain(f"big stream {which} via {kind}", len(pkts))
-    case = {"k": 0, "packets": [], "big": which}
+    ctx.domain(f"big stream {which} via {kind}" + (f", {skip} prefix bytes per packet" if skip else ""), len(pkts))
+    case = {"k": skip, "packets": [], "big": which}
+    rec = 65542 + skip
     for route in (("ccsds",) if which != "330x65536" else ("ccsds", "pgen")):
         if kind == "bytes":
             variants = [("bytes", None, [])]
+        elif kind == "bytesio" and skip:
+            # reads that end exactly on a record boundary, inside the next record's prefix, just after it
+            variants = [("bytesio", rec, []), ("bytesio", rec + 2, []), ("bytesio", rec + skip, []), ("bytesio", 4096, [])]
+        elif kind == "socket" and skip:
+            variants = [("socket", rec, [rec] * 400), ("socket", None, [4096, 1, 70000, 6, 7])]
         elif kind == "bytesio":
             # 65542 = exactly one packet per read: the buffer is exactly consumed when the trim happens
             variants = [("bytesio", None, []), ("bytesio", 100000, []), ("bytesio", 4096, []), ("bytesio", 65542, []),
@@ -349,11 +356,11 @@ def part_big(ctx, which, kind):
             ctx.cls("nontrivial")
             ctx.nontrivial_distinct()
             ctx.sample("big", {"which": which, "kind": kd, "rs": rs, "route": route, "bytes": len(stream)})
-            items, verdict = frame(stream, len(pkts), 0, kd, rs, route, sched)
+            items, verdict = frame(stream, len(pkts), skip, kd, rs, route, sched)
             if verdict is None:
                 verdict = compare(items, pkts, kd)
             if verdict:
-                ctx.fail(verdict[0], f"big stream {which} ({len(stream)} bytes) via {kd}, read size {rs}, route "
+                ctx.fail(verdict[0], f"big stream {which} ({len(stream)} bytes, skip_header_bytes={skip}) via {kd}, read size {rs}, route "
                                      f"{route}: {verdict[1]}", dict(case, only={"kind": kd, "rs": rs, "route": route,
                                                                                 "sched": sched}),
                          bucket=f"{verdict[0]}|big|{kd}")
@@ -362,7 +369,8 @@ def part_big(ctx, which, kind):
 
 def replay(ctx, case):
     if case.get("big"):
-        return part_big(ctx, case["big"], case["only"]["kind"] if case["only"]["kind"] != "socket" else "socket")
+        return part_big(ctx, case["big"], case["only"]["kind"] if case["only"]["kind"] != "socket" else "socket",
+                        case.get("k", 0))
     return check_case(ctx, case)
 
 
@@ -375,6 +383,7 @@ FLOORS = {"nontrivial": ("", 0.3), "chunk boundary inside a header": ("kind sock
 
 def plan(tier, seed):
     tasks = [("big", {"which": "330x65536", "kind": k}) for k in ("bytes", "bytesio", "socket")]
+    tasks += [("big", {"which": "330x65536", "kind": k, "skip": 5}) for k in ("bytesio", "socket")]
     if tier == "quick":
         for _ in range(13):
             tasks.append(("generated", {"examples": 60}))
